@@ -11,6 +11,7 @@ PROPS["C05"] = prop(
     "5/C05", "types-pure",
     [Unit("TestC05Exhaustive", TYPES, rapid=False, shards_quick=1, shards_thorough=1),
      Unit("TestC05Strings", TYPES, quick=50000, thorough=1000000, shards_quick=4, shards_thorough=16, fuzz="FuzzC05Strings", fuzztime=60),
-     Unit("TestC05AcsNotifications", "server", quick=1000, thorough=40000, shards_quick=8, shards_thorough=16, timeout_quick=300)],
+     Unit("TestC05AcsNotifications", "server", quick=1000, thorough=40000, shards_quick=8, shards_thorough=16, timeout_quick=300),
+     Unit("TestC05ProxyReplay", "server", quick=10000, thorough=400000, shards_quick=4, shards_thorough=16, timeout_quick=300)],
     ["N combined with other letters, and deltas not starting with a sign, are treated as unspecified: only 'an error leaves the target unchanged' is required there"],
 )
